@@ -1,7 +1,7 @@
 (* C13/Properties.v — property theorems only: statement, `exact`, Print Assumptions. *)
 From Coq Require Import ZArith List Bool.
 From Coq Require Import Permutation.
-From C13 Require Import Generated Model Proofs ProofsSend.
+From C13 Require Import Generated Model Proofs ProofsSend Session ProofsSession.
 Import ListNotations.
 Open Scope Z_scope.
 
@@ -64,6 +64,51 @@ Theorem C13_split_writes_refuted :
   let out := run_sched pend [0%nat; 1%nat; 1%nat; 0%nat] in
   wire pend out /\ snd (feed_all dinit out) <> [mA; mB] /\ snd (feed_all dinit out) <> [mB; mA].
 Proof. exact split_writes_refuted. Qed.
+
+(* End to end: a client issuing any number of calls one after the other over the framed
+   stream, under ANY fragmentation of every request and every response, gets for each call
+   the response to its own request; the responses and the final server state are those of
+   executing the same commands locally on the server interpreter (exec is arbitrary), and
+   both stream readers end at a frame boundary.  Assumed of the environment: pickle round
+   trip, 16-byte uuids, bodies below 2^32 bytes, fragmentation neither drops nor reorders.
+   Needs the regenerated facts that `_listen` answers under the request's id and that
+   `call` registers and sends under one id. *)
+Theorem C13_session_equals_local :
+  forall (state cmd resp : Type) (exec : state -> cmd -> resp * state)
+         (enc_cmd : cmd -> list byte) (dec_cmd : list byte -> option cmd)
+         (enc_resp : resp -> list byte) (dec_resp : list byte -> option resp)
+         (call_id : nat -> list byte) (frag_req frag_resp : nat -> list byte -> list (list byte))
+         (other_id : nat -> list byte),
+    (forall c, dec_cmd (enc_cmd c) = Some c) -> (forall r, dec_resp (enc_resp r) = Some r) ->
+    (forall k, length (call_id k) = 16%nat) ->
+    (forall c, zlen (enc_cmd c) < 4294967296) -> (forall r, zlen (enc_resp r) < 4294967296) ->
+    (forall k bs, concat (frag_req k bs) = bs) -> (forall k bs, concat (frag_resp k bs) = bs) ->
+    forall cs k st,
+      remote_session state cmd resp exec enc_cmd dec_cmd enc_resp dec_resp call_id frag_req frag_resp
+                     (reply_uses_request_id && call_registers_and_sends_one_id) other_id k st dinit dinit cs =
+      (map Some (fst (local_session state cmd resp exec st cs)), snd (local_session state cmd resp exec st cs), dinit, dinit).
+Proof.
+  exact (eq_ind_r (fun f => forall state cmd resp exec enc_cmd dec_cmd enc_resp dec_resp call_id frag_req frag_resp other_id,
+           (forall c, dec_cmd (enc_cmd c) = Some c) -> (forall r, dec_resp (enc_resp r) = Some r) ->
+           (forall k, length (call_id k) = 16%nat) ->
+           (forall c, zlen (enc_cmd c) < 4294967296) -> (forall r, zlen (enc_resp r) < 4294967296) ->
+           (forall k bs, concat (frag_req k bs) = bs) -> (forall k bs, concat (frag_resp k bs) = bs) ->
+           forall cs k st,
+             remote_session state cmd resp exec enc_cmd dec_cmd enc_resp dec_resp call_id frag_req frag_resp f other_id k st dinit dinit cs =
+             (map Some (fst (local_session state cmd resp exec st cs)), snd (local_session state cmd resp exec st cs), dinit, dinit))
+         session_equals_local (eq_refl : reply_uses_request_id && call_registers_and_sends_one_id = true)).
+Qed.
+Print Assumptions C13_session_equals_local.
+
+Theorem C13_session_refuted_with_other_id :
+  let exec := fun (st : Z) (c : Z) => (c + st, st + 1) in
+  let enc := fun z : Z => [z] in
+  let dec := fun l : list byte => match l with [z] => Some z | _ => None end in
+  let cid := fun k : nat => repeat (Z.of_nat k) 16 in
+  let oid := fun k : nat => repeat 255 16 in
+  let frag := fun (k : nat) (bs : list byte) => [bs] in
+  fst (fst (fst (remote_call Z Z Z exec enc dec enc dec cid frag frag false oid 0%nat 0 dinit dinit 7))) = None.
+Proof. exact session_refuted_with_other_id. Qed.
 
 (* The literal facts about the source the model relies on (sizes, format, order). *)
 Theorem C13_tables_match_model :
